@@ -13,7 +13,7 @@ Oracle (independent of the Lean model): a counter / register per key.
 from streams.cluster import T0, hx
 
 HEADER = 3
-REQUIRED_SHAPES = ["older_timestamp_writes_last", "incr", "incr_via_non_owner", "overlap_incr", "overlap_getput", "overlap_float", "overlap_two_members", "race_incr", "race_getput",
+REQUIRED_SHAPES = ["destroy_then_atomic_ops_through_old_handles", "older_timestamp_writes_last", "incr", "incr_via_non_owner", "overlap_incr", "overlap_getput", "overlap_float", "overlap_two_members", "race_incr", "race_getput",
                    "float", "incr_keeps_ttl", "getput_chain"]
 
 
@@ -71,6 +71,11 @@ class Oracle:
             p, b = reply.split("pick=")[1].split()[0].split("/")
             self.route[a[1]] = int(p.split(",")[-1])
             return None
+        if name == "c.destroy":
+            # the DMap is emptied; the application keeps its handles (they stay usable)
+            self.cnt, self.flt, self.reg, self.ttl = {}, {}, {}, {}
+            self.hit("destroy_then_atomic_ops_through_old_handles")
+            return None if reply == "ok" else "destroy: %s" % reply[:60]
         if name == "c.put":
             # a counter seeded with an expiry
             self.cnt[a[3]] = int(bytes.fromhex(a[4]))
@@ -242,6 +247,21 @@ class Gen:
                     k = r.choice(fk)
                     yield "c.atomxf %s %d dm %s incrf %s -- %s %d incrf %s" % (p, m, k, r.choice(FD), p2, m2, r.choice(FD))
                 yield "c.get%s emb %d dm %s" % ("f" if k in fk else "", r.randrange(n), k)
+            elif x < 0.83 and n >= 1:
+                # Destroy, then atomic operations through a handle obtained BEFORE it (on the key's owner) overlapping with
+                # operations that arrive over the network: one per-key lock for all of them
+                k = ck[0]
+                yield "c.destroy emb %d dm" % r.randrange(n)
+                rep = yield "c.own dm %s" % k
+                o = int(rep.split("pick=")[1].split()[0].split("/")[0].split(",")[-1])
+                yield "c.atomx emb %d dm %s incr %d -- %s %d incr %d" % (o, k, r.choice([1, 5]), r.choice(["raw", "cli"]), r.randrange(n), r.choice([3, 7]))
+                yield "c.get emb %d dm %s" % (r.randrange(n), k)
+                kg = gk[0]
+                rep = yield "c.own dm %s" % kg
+                o = int(rep.split("pick=")[1].split()[0].split("/")[0].split(",")[-1])
+                ver += 2
+                yield "c.atomx emb %d dm %s getput %s -- %s %d getput %s" % (o, kg, hx(b"g%d" % (ver - 1)), r.choice(["raw", "cli"]), r.randrange(n), hx(b"g%d" % ver))
+                yield "c.get emb %d dm %s" % (r.randrange(n), kg)
             elif x < 0.88:
                 races += 1
                 yield "c.atomrace dm %s %d %d %s" % (hx(b"race%d" % races), r.choice([3, 6]), r.choice([5, 10]), r.choice(["incr", "getput"]))
